@@ -129,10 +129,12 @@ CHECKS = {
         level='proof', design='§6 C12',
         text='Theorems: decimal / duration / datetime print-then-parse is the identity on all of int64 (datetime: on the accepted range; the full '
              'statement is REFUTED at the first day of the range = known finding F27), parsers accept exactly the documented syntax and return in-range '
-             'mathematically exact values, NewDecimal(i, e) is exact or an error, the civil calendar conversions are mutually inverse on all days. '
+             'mathematically exact values, NewDecimal(i, e) is exact or an error, the civil calendar conversions are mutually inverse on all days; ipaddr: every '
+             'well-formed address / prefix prints (dotted quad; IPv6 with :: compression) to a string that parses back to it, exactly except the IPv4-mapped IPv6 '
+             'addresses (C12_ipaddr_roundtrip_exact; known finding F30). '
              'Correspondence: parsers on literal tables + edit-distance mutants, printers on boundary/random values, NewDecimal grid; direct oracle: the '
              'Cedar rendering of values of every type evaluates to an equal value.',
-        note=TB + 'time.Date/UnixMilli and net/netip are stdlib: the calendar and the ip parser are models of them (ipaddr has correspondence only).',
+        note=TB + 'time.Date/UnixMilli and net/netip are stdlib: the calendar and the ip printer / parser are models of them, tied by the scalar correspondences.',
         technique='Coq round-trip and exactness proofs over all int64 (calendar by era sweep lifted) + differential correspondence'),
     'C13': dict(
         level='proof', design='§6 C13',
@@ -143,7 +145,7 @@ CHECKS = {
              'spellings of uids and parents decode to the same store, the document does not depend on map traversal order. Direct oracle on the Go code: values, entities, entity maps, requests, decisions, '
              'diagnostics round-trip and re-encode byte-identically; all spellings (explicit, {fn,arg}, bare string, implicit entity, schema-guided '
              'coercion) decode to equal values.',
-        note=TB + 'bytes <-> tree (encoding/json) and net/netip printing are stdlib: the ip round trip is a hypothesis of the theorem. Known: F16, F17, F27, F30.',
+        note=TB + 'bytes <-> tree is encoding/json (stdlib, not modelled). The ip round trip hypothesis of the value theorem is discharged for the modelled printer by C12_ipaddr_roundtrip (Proofs/IPProofs.v). Known: F16, F17, F27, F30.',
         technique='Coq round-trip proofs on JSON trees (values, entities, entity maps) + enc/dec correspondences + Go round-trip / spelling oracle'),
     'C14': dict(
         level='proof', design='§6 C14',
@@ -179,15 +181,16 @@ CHECKS = {
         technique='Coq termination / soundness proofs of the resolver model + AST-level differential correspondence + exhaustive small-graph runtime exploration'),
     'C17': dict(
         level='proof', design='§0.2, §6 C17',
-        text='PARTIAL (JSON half proved, text half explored). Model of the schema JSON codec on JSON trees (Impl/SchemaJson.v, the intermediate structs included), tied to '
-             'the code by the sjsonenc / sjsondec correspondences on AST-born schemas and structural mutants. Theorems (Properties/C17.v): decoding the JSON rendering of '
-             'every well-formed schema AST yields the schema in normal form (entity parent lists sorted, an empty bare namespace dropped, nothing else changed); a second '
-             'rendering is identical; the round trip preserves the verdict of resolution and the resolved schema up to the order of parent lists; the decoder is total. '
-             'The TEXT codec (lexer, parser, printer) is not modelled yet: it is decided by the direct oracle on text-, JSON- and AST-born schemas (both renderings parse '
-             'back and resolve to the same resolved schema, second renderings byte-identical, format conversion commutes with resolution).',
-        note=TB + 'Trusted in addition: the schema generators and the canonical comparison of resolved schemas. F26 and F45 are known findings; F44 was found on AST-born '
-             'schemas and fixed.',
-        technique='Coq proof (JSON codec round trip + resolution preserved) + enc/dec correspondence + Go-vs-Go round-trip oracle over generated schemas (text half)'),
+        text='Models of BOTH codecs: the schema JSON codec on JSON trees (Impl/SchemaJson.v, intermediate structs included; sjsonenc / sjsondec correspondences) and '
+             'the schema text lexer, parser and printer on bytes (Impl/SchemaText.v, function by function after token.go / parser.go / marshal.go; stparse / stprint '
+             'correspondences, nothing outside the model). Theorems (Properties/C17.v): JSON - decoding the rendering of every well-formed AST yields the schema in normal form '
+             '(parent lists sorted, an empty bare namespace dropped), the second rendering is identical, resolution is preserved up to the order of parent lists, the decoder is '
+             'total; TEXT - parse_schema (print_schema s) = norm_text s for every schema the text syntax can express (wf_text), the second rendering is byte-identical, the '
+             'parser is total, and the round trip preserves the verdict and result of resolution unless a declared type is named like a builtin (C17_text_roundtrip_f26_refuted = '
+             'known finding F26; an empty applies-to list is not printable: F45). Direct oracle on text-, JSON- and AST-born schemas for the combination of the two formats.',
+        note=TB + 'Trusted in addition: the schema generators and the canonical comparison of resolved schemas. The text normal form turns every type name into a reference '
+             '(the Go parser does not classify names; the resolver does). F26 and F45 are known findings; F44 was found on AST-born schemas and fixed.',
+        technique='Coq proofs (JSON and text codec round trips, resolution preserved) + enc/dec and parse/print correspondences + Go-vs-Go round-trip oracle over generated schemas'),
     'C18': dict(
         level='proof', design='§6 C18',
         text='Model of the scanner (buffered rune reader with refill, sentinel, partial-rune handling, tokBuf spill, line/column bookkeeping) over a '
